@@ -227,10 +227,15 @@ pub fn build_raw_counted(geom: Geom, ty: u64, kvs: &[Kv]) -> Result<(Vec<u8>, (u
 pub fn build(front: Front, geom: Geom, kvs: &[Kv]) -> Result<Vec<u8>, String> {
     STRAY.with(|s| s.set(false));
     let r = guard(|| build_inner(front, geom, kvs)).and_then(|x| x);
+    let usage = matches!(front, Front::RawInsertNoisy | Front::MapInsertNoisy | Front::SetInsertNoisy | Front::RawMixedBulk | Front::MapMixedBulk | Front::SetMixedBulk);
     match r {
         // whatever happens (error, panic) AFTER the builder accepted a call it
         // must reject is a consequence of that (C06), not of the property at hand
         Err(e) if STRAY.with(|s| s.get()) && !is_usage_skip(&e) => Err(format!("{} then: {}", USAGE_SKIP, e)),
+        // a usage front end only makes calls the ordering contract accepts (apart
+        // from the noise): an error or panic from one of them is the builder
+        // rejecting / mishandling a call it must accept - C06's business as well
+        Err(e) if usage && !is_usage_skip(&e) => Err(format!("{} a call of a usage front end that the ordering contract accepts failed: {}", USAGE_SKIP, e)),
         r => r,
     }
 }
